@@ -432,7 +432,7 @@ static void mode_l(char *rest)
 
 void run_case(char *rest)
 {
-	alarm(20);          /* a probe or chain loop that does not terminate ends as a crash */
+	alarm(4);           /* a probe or chain loop that does not terminate ends as a crash */
 	if (rest[0] == 'A' && rest[1] == ' ') mode_a(rest + 2);
 	else if (rest[0] == 'B' && rest[1] == ' ') mode_b(rest + 2);
 	else if (rest[0] == 'L' && rest[1] == ' ') mode_l(rest + 2);
